@@ -525,7 +525,10 @@ def malformed_inputs(kind, rng, tier):
         # overlong forms
         for u in ([0xC0, 0x80], [0xC1, 0xBF], [0xE0, 0x80, 0x80], [0xE0, 0x9F, 0xBF], [0xF0, 0x80, 0x80, 0x80],
                   [0xF0, 0x8F, 0xBF, 0xBF], [0xF7, 0xBF, 0xBF, 0xBF], [0xF4, 0x90, 0x80, 0x80], [0xED, 0xA0, 0x80],
-                  [0xED, 0xBF, 0xBF]):
+                  [0xED, 0xBF, 0xBF],
+                  # F8..FF are never lead bytes, whatever follows (5/6-byte forms of the old definition)
+                  [0xF8, 0x80, 0x80, 0x80], [0xF8, 0x88, 0x80, 0x80, 0x80], [0xFB, 0xBF, 0xBF, 0xBF], [0xFC, 0x84, 0x80, 0x80, 0x80, 0x80],
+                  [0xFE, 0x80, 0x80, 0x80], [0xFF, 0xBF, 0xBF, 0xBF], [0xF7, 0x80, 0x80], [0xF0, 0x80, 0x80], [0xE0, 0x80], [0xC2]):
             for pre in ([], [0x41], [0xC3, 0xA9]):
                 for post in ([], [0x41], [0xE2, 0x82, 0xAC]):
                     if emit(pre + u + post):
